@@ -19,6 +19,7 @@ import hashlib
 import json
 import multiprocessing
 import os
+import queue
 import subprocess
 import sys
 import time
@@ -60,7 +61,8 @@ def _blame(exc):
     """an exception that escaped check.run(): None if the harness is to blame, else the mapproxy function it came out of.
     It is the code under test's exception when it passed through mapproxy frames, no frame of a check lies below the
     innermost mapproxy frame (a stub called by mapproxy that blew up is a harness error), and frames of the simulator
-    below it only ever raise OSError (a simulated errno is part of the environment; anything else is a simulator bug)."""
+    below it only ever raise OSError or queue.Empty/Full (a simulated errno or an empty simulated queue is part of the
+    environment; anything else is a simulator bug)."""
     import mapproxy
     mp = os.path.realpath(os.path.dirname(mapproxy.__file__)) + os.sep
     here = os.path.realpath(os.path.dirname(os.path.dirname(os.path.abspath(__file__)))) + os.sep
@@ -75,7 +77,7 @@ def _blame(exc):
         fn = os.path.realpath(fr.filename)
         if fn.startswith(here + 'checks' + os.sep):
             return None
-        if fn.startswith(here + 'simkit' + os.sep) and not isinstance(exc, OSError):
+        if fn.startswith(here + 'simkit' + os.sep) and not isinstance(exc, (OSError, queue.Empty, queue.Full)):
             return None
     fr = frames[last_mp]
     return '%s:%s' % (os.path.basename(fr.filename), fr.name)
